@@ -132,17 +132,22 @@ class Watch:
         self.over = []
         self.fractions = []
         self.messages_bad = 0
+        self.blocks = []          # [announced total, increments received (the one of __exit__ included)] per Progress object
         w = self
         self._init = P.Progress.__init__
         self._inc = P.Progress.increment
 
         def init(prog, message, total=1, *a, **k):
             w.started += 1
+            prog._w_idx = len(w.blocks)
+            w.blocks.append([total, 0])
             w._init(prog, message, total, *a, **k)
 
         def inc(prog, step=1, force=False):
             if prog._i + step > prog._total:
                 w.over.append((prog._i + step, prog._total))
+            if hasattr(prog, "_w_idx"):
+                w.blocks[prog._w_idx][1] += step
             return w._inc(prog, step=step, force=force)
         P.Progress.__init__ = init
         P.Progress.increment = inc
@@ -242,6 +247,39 @@ def sweeps(tier, rng):
     return combos
 
 
+def kk_step_cases(tier, rng):
+    """evaluate_log_F_ext on its three routes: (route, size, observed total, observed increments without the one of __exit__)"""
+    import numpy as np
+    from pyimpspec import DataSet, parse_cdc
+    from pyimpspec.analysis.kramers_kronig import evaluate_log_F_ext
+    f = np.logspace(4, -1, 21)
+    Z = parse_cdc("R{R=100}(R{R=200}C{C=1e-4})(R{R=300}C{C=1e-2})").get_impedances(f)
+    data = DataSet(f, Z, label="kksteps")
+    jobs = []
+    for t in ["complex", "real-inv", "cnls"] if tier == "quick" else ["complex", "real", "imaginary", "complex-inv", "real-inv", "imaginary-inv", "cnls"]:
+        for rcs in ([], [2], [3, 7, 5], list(range(2, 12))):
+            if t == "cnls" and len(rcs) != 1 and tier == "quick":
+                continue
+            jobs.append(("fixed", t, dict(num_RCs=rcs, num_F_ext_evaluations=0)))
+    ns = [10, 11, 14, 20, -10, -13] if tier == "quick" else [10, 11, 12, 13, 14, 17, 20, 25, 33, -10, -11, -13, -20]
+    for n in ns:
+        for t in (["complex", "imaginary-inv"] if tier == "quick" else ["complex", "real", "imaginary-inv", "complex-inv"]):
+            for rapid in ((True,) if (tier == "quick" and n % 2) else (True, False)):
+                jobs.append(("search", t, dict(num_RCs=[], num_F_ext_evaluations=n, rapid_F_ext_evaluations=rapid,
+                                               min_log_F_ext=rng.choice([-1.0, -0.5, 0.0]), max_log_F_ext=rng.choice([1.0, 0.3]))))
+    out = []
+    for route, t, kw in jobs:
+        with Watch() as w:
+            try:
+                evaluate_log_F_ext(data=data, test=t, num_procs=1, timeout=5, max_nfev=20, **kw)
+                err = ""
+            except Exception as e:  # noqa
+                err = type(e).__name__
+        size = kw["num_F_ext_evaluations"] if route == "search" else (len(kw["num_RCs"]) if kw["num_RCs"] else None)
+        out.append(dict(route=route, test=t, options={k: v for k, v in kw.items()}, error=err, blocks=[list(b) for b in w.blocks], size=size, over=list(w.over)))
+    return out
+
+
 def describe_kwargs(kw):
     out = {}
     for k, v in kw.items():
@@ -271,16 +309,17 @@ def run(rep, tier, seed, tr_errors):
     rep.rule = ("(a) operation sequences on Progress (enter, increment with steps 0..3 and force, set, set_message with/without new "
                 "total, exit) for totals coprime to 100; (b) sampled cross products of documented options for KK (7 tests x admittance x C x L x "
                 "num_RC x num_F_ext_evaluations x rapid), Z-HIT (6 smoothing x 5 interpolation x Z/Y x window/weights x (num_points, order)), "
-                "DRT (tr-nnls, lm, mrq-fit, bht in thorough), fit (methods x weights, lists) on a 26-point and a 6-point spectrum; non-trivial = "
+                "DRT (tr-nnls, lm, mrq-fit, bht in thorough), fit (methods x weights, lists) on a 26-point and a 6-point spectrum; (c) evaluate_log_F_ext on its three routes (fixed extension with several num_RCs lists, two-stage search with 10..33 evaluations, lmfit search with -10..-20) with observed totals and increment counts checked against gen/KKSteps_gen.v inside Coq; non-trivial = "
                 "distinct option tuple that ran to completion or was refused; distinct by tuple")
     rep.trusted += ["Coq 8.16.1 kernel, vm_compute", "model coq/An/Progress.v of progress.py (tie 2: correspondence on sequences); gen/Steps_gen.v translated from zhit/__init__.py and fitting.py, gen/ProgressBlocks_gen.v from every `with Progress(total=<literal>)` block under analysis/ (tie 1; the path-sensitive increment count of tools/tr_progress.py is trusted)",
-                    "the step counts of KK/DRT/fit are observed (Progress wrapped), not proved; numeric libraries are exercised only"]
+                    "gen/KKSteps_gen.v translated from kramers_kronig/exploratory.py (totals of the three routes of evaluate_log_F_ext, stage sizes of the two-stage search; the places where the progress object is incremented are checked structurally by tools/tr_kksteps.py) and compared with the totals and increment counts observed on runs of every route; lmfit calls the residual function at most max_nfev times (hypothesis of the lmfit-route theorem)",
+                    "the step counts of the DRT searches (_test_lambda_values, _perform_attempts, tr_rbf) are observed (Progress wrapped), not proved; numeric libraries are exercised only"]
     if "tr_steps" in tr_errors:
         rep.oblige("translator:tr_steps", False, tr_errors["tr_steps"][-400:])
     else:
         rep.oblige("translator:tr_steps", True, "gen/Steps_gen.v regenerated")
     rep.oblige("translator:tr_progress", "tr_progress" not in tr_errors, tr_errors.get("tr_progress", "gen/ProgressBlocks_gen.v regenerated (literal-total Progress blocks, largest increment count on any path)")[-400:])
-    thm_ok, names, out = lib.check_props_file(rep, PROPS_FILE, expect=["C18_fraction_in_unit", "C18_increment_raises_iff", "C18_zhit_steps_ok", "C18_fit_steps_ok", "C18_constant_blocks_run_to_the_end"])
+    thm_ok, names, out = lib.check_props_file(rep, PROPS_FILE, expect=["C18_fraction_in_unit", "C18_increment_raises_iff", "C18_zhit_steps_ok", "C18_fit_steps_ok", "C18_constant_blocks_run_to_the_end", "C18_kk_fixed_extension_runs_to_the_end", "C18_kk_two_stage_search_runs_to_the_end", "C18_kk_lmfit_search_runs_to_the_end"])
     pcs = progress_cases(rng, 400 if tier == "quick" else 5000)
     cases = []
     bad_msgs = 0
@@ -321,6 +360,42 @@ def run(rep, tier, seed, tr_errors):
             else:
                 found.append((name, describe_kwargs(kw), detail))
     rep.extra["option_sweep"] = stats
+    # evaluate_log_F_ext: observed totals and increment counts against the translated step arithmetic (gen/KKSteps_gen.v)
+    rep.oblige("translator:tr_kksteps", "tr_kksteps" not in tr_errors, tr_errors.get("tr_kksteps", "gen/KKSteps_gen.v regenerated (totals, stage sizes; increment sites checked structurally)")[-400:])
+    kk_obs = kk_step_cases(tier, rng)
+    kk_bad = []
+    items = []
+    for j, o in enumerate(kk_obs):
+        rep.evaluations += 1
+        rep.distinct.add(json.dumps(["evaluate_log_F_ext", o["route"], o["test"], o["options"]], default=str, sort_keys=True))
+        if o["error"] or o["over"] or len(o["blocks"]) != 1:
+            if o["error"] not in LIB_ERRORS or o["over"]:
+                kk_bad.append((j, "error=%s over=%r blocks=%r" % (o["error"], o["over"], o["blocks"])))
+            continue
+        total, incs = o["blocks"][0]
+        n = o["size"] if o["size"] is not None else (2 * 21 - 5 - 1 if not o["test"].endswith("-inv") else min(21 + 10, 2 * 21 - 5) - 1)
+        items.append("(%d, %s, %s, %d, %d, %d)" % (j, "true" if o["route"] == "search" else "false", "true" if o["test"] == "cnls" else "false", n, total, incs - 1))
+    kk_header = "From Coq Require Import ZArith Bool List.\nFrom PV Require Import An.Progress_kk gen.KKSteps_gen.\nImport ListNotations.\nOpen Scope Z_scope.\n"
+    kk_body = ("Definition cases : list (Z * bool * bool * Z * Z * Z) := [\n" + ";\n".join(items) + "].\n"
+               "(* search: total as announced, increments within the bound of the route; fixed: total as announced, increments exactly\n"
+               "   1 + 1 + n for the linear implementations, at most that for the non-linear one *)\n"
+               "Definition result : list Z := flat_map (fun c : Z * bool * bool * Z * Z * Z => let '(i, search, cnls, n, total, incs) := c in\n"
+               "  if (if search then (total =? kk_total_search n) && (incs + 1 <=? total) && (2 <=? incs)\n"
+               "      else (total =? kk_total_fixed n) && (if cnls then incs <=? kk_incs_fixed n else incs =? kk_incs_fixed n)) then [] else [i]) cases.\n")
+    kk_out = lib.run_shards(PROP + "_kk", kk_header, [kk_body]) if items else []
+    kk_mism = []
+    for rc, parsed, raw in kk_out:
+        if rc != 0 or parsed is None:
+            kk_bad.append((-1, "cases shard did not evaluate: " + raw[-300:]))
+        else:
+            kk_mism += parsed
+    for j in kk_mism:
+        kk_bad.append((j, "observed (total, increments) = %r differ from the translated step arithmetic" % (kk_obs[j]["blocks"],)))
+    rep.extra["kk_steps"] = {"runs": len(kk_obs), "compared": len(items), "library_errors": sum(1 for o in kk_obs if o["error"] in LIB_ERRORS and o["error"])}
+    rep.oblige("evaluate_log_F_ext:observed-steps-match-translated-arithmetic", not kk_bad and len(items) >= 10, "%d runs, %d compared, %d disagreements" % (len(kk_obs), len(items), len(kk_bad)))
+    for j, why in kk_bad[:3]:
+        o = kk_obs[j] if j >= 0 else {}
+        found.append(("evaluate_log_F_ext", {"test": o.get("test"), **{k: v for k, v in o.get("options", {}).items()}}, why))
     rep.samples = [{"entry": n, "options": describe_kwargs(k)} for n, _, k in combos[:3]]
     rep.oblige("option-sweep:completes-or-refused-up-front", not found, "%d option tuples aborted part-way or broke the progress contract" % len(found))
     by = {c[0]: c for c in cases}
